@@ -1287,7 +1287,7 @@ def run(ck) -> None:
 
     # ---- 1. corpus + random schedules: implementation + oracle, then the Coq model on the same traces
     scheds = [s for s in load_corpus()]
-    n_rand = 70 if not ck.thorough else 1500
+    n_rand = 70 if not ck.thorough else 1000
     for i in range(n_rand):
         for kind in ("dls", "graph", "function"):
             if i % 5 == 0:
@@ -1346,12 +1346,14 @@ def run(ck) -> None:
     tree_scopes = [([1, 2, 3], [True, False]), ([1, 2], [True, True]), ([2, 1, 3], [False, False])]
     if not ck.thorough:      # quick: two of the three configurations, chosen by the seed (all three in thorough)
         tree_scopes = [tree_scopes[ck.seed % 3], tree_scopes[(ck.seed + 1) % 3]]
-    for init, cursors in tree_scopes:
+    for ti, (init, cursors) in enumerate(tree_scopes):
         if HANGS >= 3:
             break
-        files, n = tree_files(init, cursors, depth, elems)
+        # thorough: two configurations at depth 4, the third at depth 3 (time budget)
+        tdepth = 3 if (ck.thorough and ti == 2) else depth
+        files, n = tree_files(init, cursors, tdepth, elems)
         ck.count(n)
-        ck.hist("exhaustive_scopes", f"coq-tree init={init} cursors={cursors} depth={depth}", n)
+        ck.hist("exhaustive_scopes", f"coq-tree init={init} cursors={cursors} depth={tdepth}", n)
         try:
             res = ck.coq_eval_many([(name, text) for name, text, _ in files], timeout=1500)
         except Exception as e:  # noqa: BLE001
@@ -1367,9 +1369,9 @@ def run(ck) -> None:
                                   "events": [["new", f] for f in cursors] + path_of(p, first, elems)})
     for s in tree_mism[:3]:
         ck.broken("correspondence:DoublyLinkedSet-model(exhaustive)", json.dumps(s))
-    scopes = [([1, 2, 3], [True, False], depth + 1, 15 if not ck.thorough else 480)]
+    scopes = [([1, 2, 3], [True, False], depth + 1, 15 if not ck.thorough else 240)]
     if ck.thorough:
-        scopes += [([1, 2], [True, True], depth, 120), ([1, 2, 3], [False, False], depth, 120)]
+        scopes += [([1, 2], [True, True], depth, 60), ([1, 2, 3], [False, False], depth, 60)]
     for init, cursors, d, budget in scopes:
         if HANGS >= 3 or len(oracle_failed) >= 25:
             break
